@@ -3,7 +3,7 @@ package flight12
 //symgo:pkg github.com/pion/dtls/v3/internal/flight/flight12
 //symgo:replace github.com/pion/dtls/v3/pkg/crypto/prf.VerifyDataClient zzVerifyDataClient
 //symgo:replace github.com/pion/dtls/v3/pkg/crypto/prf.VerifyDataServer zzVerifyDataServer
-//symgo:stub prf.VerifyDataClient / prf.VerifyDataServer are uninterpreted functions of (master secret, transcript); the cipher suite is a harness fake recording Init; crypto/rand.Reader and the connection-ID generators hand out fresh unconstrained bytes and log them
+//symgo:stub prf.VerifyDataClient / prf.VerifyDataServer are uninterpreted functions of (master secret, transcript), zzsymUF(...) in zzPRF of resume.go; the cipher suite is a harness fake recording Init; crypto/rand.Reader and the connection-ID generators hand out fresh unconstrained bytes and log them
 //symgo:stub both endpoints are the real flight12 handlers driven the way handshakeFSM12 drives them (see resume.go)
 //symgo:outside connection IDs of other lengths than 2 bytes; CID use on the record layer after the handshake (property C15)
 
